@@ -141,7 +141,7 @@ fn evaluate_substring(args: &[Value]) -> Value {
         if let Some(Value::Int(start)) = args.get(1) {
             let start = *start as usize;
             let len = if let Some(Value::Int(l)) = args.get(2) {
-                Some(*l as usize)
+                Some((*l).max(0) as usize)
             } else {
                 None
             };
@@ -151,7 +151,7 @@ fn evaluate_substring(args: &[Value]) -> Value {
                 Value::String(String::new())
             } else {
                 let end = if let Some(l) = len {
-                    (start + l).min(chars.len())
+                    start.saturating_add(l).min(chars.len())
                 } else {
                     chars.len()
                 };
